@@ -130,7 +130,7 @@ theorem handle_print_roundtrip_proof (ur : Option Bytes) (comps : List Bytes) (n
     subst he
     refine ⟨_, by simp only [describeNode, hsane, hk, hpath]; rfl, fun rest => ?_⟩
     have hh : findHook KW_SLINK hooks = some ⟨KW_SLINK, sIFLNK, true, false, .generic⟩ := by decide
-    obtain ⟨x1, x2, x3⟩ := extra1 n.target (safe_of_lineSafe htgt)
+    obtain ⟨x1, x2, x3⟩ := extra1 n.target (safe_of_lineSafe (htgt hk))
     have := describe_line KW_SLINK word_slink _ hh comps hc n hwf _ _ x1 x2 x3 (Or.inl (hnr (by simp [hk]))) (by simp) rest
     simp only [spTail, List.append_nil, addGeneric] at this
     simp only [List.append_assoc, List.cons_append, List.nil_append, List.singleton_append] at this ⊢
